@@ -15,7 +15,8 @@ labels that look like keywords fall through), C08.F-label (labels reach namelist
 statement gets the next free position and dict maps it to that position), S.P-parse (every call of the parse closure in
 CLI and server sends its Err outcome to a panic resp. an error value, never to a semantics call or a print),
 C08.P-panic (census of panic sites reachable from parse), C08.A-alphabet (producer/consumer contract between the label
-alphabet of the grammar and the variable-name precondition of biodivine), C09.A-term and C07.T-conn (what each Formula variant is compiled to, natively
+alphabet of the grammar and the variable-name precondition of biodivine), C08.F-input (the text handed to the parser is the submitted text, unmodified),
+C09.A-term and C07.T-conn (what each Formula variant is compiled to, natively
 and for biodivine, with operand order: the meaning of the keywords is observable only through this composition)."""
 NOT_DECIDED = "Language inclusion 'every documented input is accepted' in general: nom's combinator semantics are trusted and whitespace placement beyond the listed skeleton is not modelled."
 TECHNIQUE = "static analysis: grammar extraction from resolved combinator calls (MIR expression reconstruction) compared with the specified grammar; CFG reachability from Err edges; provenance of labels"
@@ -403,6 +404,58 @@ def P_parse(ctx, crate, rule="S.P-parse", floor=3, key_prefix=""):
     return n
 
 
+IDENTITY_LIKE = ("expect", "unwrap", "deref", "as_str", "borrow", "as_ref", "clone", "to_string", "to_owned", "into", "from", "as_deref", "unwrap_or_default")
+
+
+def F_input(ctx, crate, kind, floor, rule="C08.F-input"):
+    ctx.rule(rule, "the text handed to the parser is the text that was submitted: in the CLI the argument of every parse call is the result of fs::read_to_string(<input path>) "
+                   "through identity-like calls only (expect/unwrap/deref/as_str/clone ...); in the web service it is the `code` field of the request payload; no "
+                   "transformation (whitespace stripping, case folding, replace, trim ...) sits in between - labels and layout reach the grammar verbatim")
+    n = 0
+    for b in crate.all_bodies:
+        calls, d = flow.all_call_exprs(b)
+        for bb, t, ci, e in calls:
+            if not (e[0] == "call" and e[3] and e[3][0][0] == "call" and flow.sg(e[3][0][1]).endswith("parser::AdfParser::parse") and flow.last(e[2]) in ("call", "call_mut", "call_once")):
+                continue
+            n += 1
+            arg = e[3][1]
+            while arg[0] == "tuple" and len(arg[1]) == 1:
+                arg = arg[1][0]
+            x = flow.expand_phi(d, arg)
+            foreign = []
+            src = []
+
+            def walk(y):
+                if y[0] == "call":
+                    nm = flow.last(y[2])
+                    if flow.sg(y[1]).endswith("fs::read_to_string") or flow.sg(y[1]).endswith("io::read_to_string"):
+                        src.append("read_to_string")
+                        return
+                    if nm not in IDENTITY_LIKE:
+                        foreign.append(flow.fname(y[1]))
+                    for a in y[3][:1]:
+                        walk(a)
+                elif y[0] in ("tuple",):
+                    for a in y[1]:
+                        walk(a)
+                elif y[0] in ("ref", "deref", "field", "downcast") and len(y) > 1 and isinstance(y[1], tuple):
+                    if y[0] == "field" and y[2] == "code":
+                        src.append("field code")
+                    walk(y[1])
+                elif y[0] == "upvar":
+                    src.append(flow.show(y))
+                elif y[0] == "alts":
+                    for a in y[1]:
+                        walk(a)
+            walk(x)
+            if kind == "bin":
+                ok = not foreign and src == ["read_to_string"]
+            else:
+                ok = not foreign and bool(src) and all(("code" in s_) for s_ in src)
+            ctx.ob(rule, "%s:%s@%d" % (kind, b.qual, n), ok, where=b.where(t.get("loc")), expected="the submitted text, unmodified", found="source %s; calls in between: %s; %s" % (src, foreign, flow.show(x)[:160]))
+    ctx.floor(rule, kind + " parse calls", n, floor)
+
+
 def is_print(p, t):
     return flow.sg(p).endswith(("io::_print", "io::stdio::_print"))
 
@@ -512,6 +565,8 @@ def check(ctx):
     ctx.cfg = "bin@default"
     bin_ = ctx.load(facts.Config("bin"))
     P_parse(ctx, bin_, floor=3, key_prefix="bin:")
+    F_input(ctx, bin_, "bin", 3)
     ctx.cfg = "server@default"
     server = ctx.load(facts.Config("server"))
     P_parse(ctx, server, floor=1, key_prefix="server:")
+    F_input(ctx, server, "server", 1)
